@@ -25,7 +25,7 @@ class TraceStats(object):
             self.cmds.append(r.cmd)
 
 
-def validate(module, events, name, per_shard=20000, timeout=1800, env=None, cfg=None, stats=None, xss='256m'):
+def validate(module, events, name, per_shard=20000, timeout=1800, env=None, cfg=None, stats=None, xss='256m', group=None):
     """events: list of dicts, each with a unique integer 'id'.  Returns list of (id, clause)."""
     if stats is None:
         stats = TraceStats()
@@ -36,7 +36,18 @@ def validate(module, events, name, per_shard=20000, timeout=1800, env=None, cfg=
     # contiguous shards, at most per_shard... more shards than CPUs are queued
     size = (len(events) + nshards - 1) // nshards
     size = min(size, per_shard)
-    shards = [events[i:i + size] for i in range(0, len(events), size)]
+    if group is None:
+        shards = [events[i:i + size] for i in range(0, len(events), size)]
+    else:
+        # stateful traces: a shard boundary may only fall where the group id changes
+        shards, cur = [], []
+        for ev in events:
+            if len(cur) >= size and ev.get(group) != cur[-1].get(group):
+                shards.append(cur)
+                cur = []
+            cur.append(ev)
+        if cur:
+            shards.append(cur)
     paths = []
     for i, sh in enumerate(shards):
         p = os.path.join(d, 'trace%03d.ndjson' % i)
